@@ -33,17 +33,17 @@ def run(P, rep, tier):
     rep.not_decided = NOT_DECIDED
     rep.assumptions = c02.ASSUMPTIONS + ["a process kill cannot modify a file the process has open read-only"]
     ctx = Ctx(P)
-    c02.r1_sinks(P, rep, ctx, whole_package=False)
-    c02.r1b_open_rplus(P, rep, ctx)
-    c02.r2_provenance(P, rep, ctx)
-    c02.r3_typestate(P, rep, ctx)
-    c02.r4_overlay_writes(P, rep, ctx)
+    rep.attempt(c02.r1_sinks, P, rep, ctx, whole_package=False)
+    rep.attempt(c02.r1b_open_rplus, P, rep, ctx)
+    rep.attempt(c02.r2_provenance, P, rep, ctx)
+    rep.attempt(c02.r3_typestate, P, rep, ctx)
+    rep.attempt(c02.r4_overlay_writes, P, rep, ctx)
     if tier == "thorough":
-        c02.r1_sinks(P, rep, ctx, whole_package=True)
-    r2_commit_order(P, rep, ctx)
-    r2_save_shape(P, rep, ctx)
-    r2_uncommitted_recognisable(P, rep, ctx)
-    r2_manifest_after_commit(P, rep, ctx)
+        rep.attempt(c02.r1_sinks, P, rep, ctx, whole_package=True)
+    rep.attempt(r2_commit_order, P, rep, ctx)
+    rep.attempt(r2_save_shape, P, rep, ctx)
+    rep.attempt(r2_uncommitted_recognisable, P, rep, ctx)
+    rep.attempt(r2_manifest_after_commit, P, rep, ctx)
     rep.floor("C11.R2", 12)
     rep.floor("C02.R4", 11)
 
